@@ -200,6 +200,12 @@ def _work(combo):
             if (sa, da) != good:
                 for shift in (0, 1):
                     calls.append(([good, (sa, da)], shift, False, False))
+    # one source attribute fanned out to two destination attributes in ONE call, with initial data
+    if len(ATTRS[dt]) >= 2 and any_inputs is not True:
+        for sa in ATTRS[st]:
+            for da1, da2 in itertools.permutations(ATTRS[dt], 2):
+                for shift, weak in ((1, False), (2, False), (0, True)):
+                    calls.append(([(sa, da1), (sa, da2)], shift, weak, True))
     for pairs, shift, weak, init in calls:
         if r is None:
             try:
